@@ -142,10 +142,13 @@ func ResolveStateConflictsV2(
 			if _, ok := visited[authEventID]; ok {
 				continue
 			}
+			// Mark the auth event before descending into it: in room versions 1 and 2 the
+			// sender chooses the event IDs, so auth events can reference each other in a
+			// cycle and the recursion would otherwise never end.
+			visited[authEventID] = struct{}{}
 			if event, ok := r.conflictedEventMap[authEventID]; ok {
 				events = append(events, fullControlSet(event)...)
 			}
-			visited[authEventID] = struct{}{}
 		}
 		return events
 	}
@@ -310,10 +313,13 @@ func ResolveStateConflictsV2New(
 			if _, ok := visited[authEventID]; ok {
 				continue
 			}
+			// Mark the auth event before descending into it: in room versions 1 and 2 the
+			// sender chooses the event IDs, so auth events can reference each other in a
+			// cycle and the recursion would otherwise never end.
+			visited[authEventID] = struct{}{}
 			if event, ok := r.conflictedEventMap[authEventID]; ok {
 				events = append(events, fullControlSet(event)...)
 			}
-			visited[authEventID] = struct{}{}
 		}
 		return events
 	}
@@ -695,6 +701,12 @@ func (r *stateResolverV2) calculateFullAuthChainAndConflictedSubgraph(
 func (r *stateResolverV2) createPowerLevelMainline() []PDU {
 	var mainline []PDU
 
+	// The power level events that the iterator is currently inside. In room versions
+	// 1 and 2 the sender chooses the event IDs, so auth events can reference each other
+	// in a cycle: an event that is already being walked is not walked again from within
+	// itself, otherwise the recursion would never end.
+	visiting := make(map[string]struct{})
+
 	// Define our iterator function.
 	var iter func(event PDU)
 	iter = func(event PDU) {
@@ -709,9 +721,14 @@ func (r *stateResolverV2) createPowerLevelMainline() []PDU {
 			if authEvent, ok := r.authEventMap[authEventID]; ok {
 				// Is the event a power event?
 				if authEvent.Type() == spec.MRoomPowerLevels && authEvent.StateKeyEquals("") {
+					if _, cyclic := visiting[authEventID]; cyclic {
+						continue
+					}
 					// We found a power level event in the event's auth events - start
 					// the iterator from this new event.
+					visiting[authEventID] = struct{}{}
 					iter(authEvent)
+					delete(visiting, authEventID)
 				}
 			}
 		}
@@ -743,6 +760,11 @@ func (r *stateResolverV2) getFirstPowerLevelMainlineEvent(event PDU) (
 		return pos, ok
 	}
 
+	// The power level events that the iterator is currently inside: as in
+	// createPowerLevelMainline, auth events that reference each other in a cycle
+	// (possible in room versions 1 and 2) must not be walked again from within themselves.
+	visiting := make(map[string]struct{})
+
 	// Define our iterator function.
 	var iter func(event PDU)
 	iter = func(event PDU) {
@@ -771,10 +793,17 @@ func (r *stateResolverV2) getFirstPowerLevelMainlineEvent(event PDU) (
 				r.powerLevelMainlinePos[mainlineEvent.EventID()] = mainlinePosition
 				return
 			}
-			// It isn't - increase the step count and then run the iterator again
+			// It isn't. If we are already inside this event then its auth events are
+			// being walked further up the stack and it cannot lead us anywhere new.
+			if _, cyclic := visiting[authEventID]; cyclic {
+				continue
+			}
+			// Otherwise increase the step count and then run the iterator again
 			// from the found auth event.
 			steps++
+			visiting[authEventID] = struct{}{}
 			iter(authEvent)
+			delete(visiting, authEventID)
 		}
 	}
 
